@@ -3,7 +3,7 @@
 //! extension built from /repo with the logical clock, and turns the driver's report into evidence.
 
 use crate::kit::{Cmp, Kit, Rv, Se2, Se3, So2, So3, Spec, V};
-use crate::report::{finish, h128, out, CheckMeta, Report, VERIF};
+use crate::report::{finish, h128, out, CheckMeta, Report};
 use oxmpl::base::error::{PlanningError, StateSamplingError};
 use oxmpl::base::goal::{Goal, GoalRegion, GoalSampleableRegion};
 use oxmpl::base::planner::{Planner, PlannerConfig};
@@ -448,7 +448,7 @@ fn wrapper_cases() -> Vec<Value> {
 // driver invocation
 
 fn py_env() -> (String, String) {
-    (format!("{VERIF}/target/py/site"), format!("{VERIF}/py/driver.py"))
+    (format!("{}/target/py/site", crate::report::verif_root()), format!("{}/py/driver.py", crate::report::verif_root()))
 }
 
 /// Splits the scenario list over several driver processes (CPython is single-threaded) and merges
@@ -498,7 +498,7 @@ fn run_driver(mode: &str, input: &Value, rep: &mut Report) -> Option<Value> {
 }
 
 fn run_driver_one(tag: &str, mode: &str, input: &Value, rep: &mut Report) -> Option<Value> {
-    let dir = format!("{VERIF}/target/py");
+    let dir = format!("{}/target/py", crate::report::verif_root());
     let _ = std::fs::create_dir_all(&dir);
     let inp = format!("{dir}/{tag}_input.json");
     let outp = format!("{dir}/{tag}_output.json");
